@@ -4,7 +4,8 @@ opts (all optional):
   rule: task priority rule name (default TSLACK); absence: project-wide absence list;
   auto_abs: perform_auto_task_while_absence_time; max_time; res_absence: {resource name: [steps]};
   phases: phases to snapshot (default all four); want_canon: record canonical state at 'updated';
-  fault: [step, phase] -> the observer raises InjectedFault there; plain: build with library classes.
+  fault: [step, phase] -> the observer raises InjectedFault there; plain: build with library classes;
+  presim: number of earlier simulate() calls on the same object before the observed one.
 """
 import traceback
 
@@ -16,6 +17,10 @@ ALL_PHASES = ("updated", "allocated", "performed", "recorded")
 
 class InjectedFault(Exception):
     pass
+
+
+class InjectedInterrupt(BaseException):
+    """an abort that is not an Exception subclass (like KeyboardInterrupt / SystemExit)"""
 
 
 class Exec(object):
@@ -66,9 +71,10 @@ def sim_kwargs(opts):
     return kw
 
 
-def make_observer(ex, phases=ALL_PHASES, want_canon=False, fault=None, extra=None):
+def make_observer(ex, phases=ALL_PHASES, want_canon=False, fault=None, extra=None, fault_type=None):
     phases = set(phases)
     fault = tuple(fault) if fault else None
+    fault_type = fault_type or InjectedFault
 
     def obs(project, phase, working):
         t = project.time
@@ -89,7 +95,7 @@ def make_observer(ex, phases=ALL_PHASES, want_canon=False, fault=None, extra=Non
         if extra is not None:
             extra(project, phase, working)
         if fault is not None and fault == (t, phase):
-            raise InjectedFault("injected at step %d phase %s" % (t, phase))
+            raise fault_type("injected at step %d phase %s" % (t, phase))
 
     return obs
 
@@ -111,6 +117,13 @@ def run(spec, opts=None, model=None, call=None):
         want_canon=bool(opts.get("want_canon")),
         fault=opts.get("fault"),
     )
+    try:
+        for _ in range(int(opts.get("presim") or 0)):
+            # earlier, unobserved runs on the same object (the observed run must not be influenced by them)
+            ex.m.project.simulate(**sim_kwargs(dict(opts, absence=opts.get("presim_absence", []))))
+    except Exception as e:
+        ex.error = "presim: %s: %s" % (type(e).__name__, e)
+        return ex
     bootstrap.set_observer(obs)
     try:
         if call is not None:
